@@ -70,7 +70,8 @@ def header_bytes(seq: int, wguid: bytes, good: bool = True, log_offset: int = MB
 
 
 def region_table_bytes(entries) -> bytes:
-    body = b"".join(struct.pack("<16sQII", g.bytes_le, off, ln, 1) for g, off, ln in entries)
+    """entries: (guid, file offset, length[, required]); `required` defaults to 1"""
+    body = b"".join(struct.pack("<16sQII", e[0].bytes_le, e[1], e[2], e[3] if len(e) > 3 else 1) for e in entries)
     raw = (struct.pack("<4sII4s", b"regi", 0, len(entries), bytes(4)) + body).ljust(KB64, b"\x00")
     crc = crc32c(raw)
     return raw[:4] + struct.pack("<I", crc) + raw[8:]
@@ -197,6 +198,9 @@ def build(spec: dict):
     regs = [(GUID_METADATA, meta_off, MB), (GUID_BAT, bat_off, bat_len)]
     if spec.get("region_order", "mb") == "bm":
         regs.reverse()
+    if spec.get("extra_region") is not None:
+        # a region this reader does not know, not marked required (a reader may ignore it): placed first / between / last
+        regs.insert(spec["extra_region"] % 3, (uuid.UUID("0f0e0d0c-0b0a-4908-8706-050403020100"), 1 * MB, MB, 0))
     rt = region_table_bytes(regs)
     fh.put(3 * KB64, rt)
     fh.put(4 * KB64, rt)
